@@ -617,8 +617,9 @@ func runC41(c *fw.Ctx) {
 			reported++
 		}
 	}
-	space(sigmaFull, lenFull, lenFaithful)
+	space(sigmaFull, lenFull, -1)
 	space(sigmaDeep, lenDeep, -1)
+	space(sigmaFull, -1, lenFaithful) // one `sh -c` per case and shell: last, it is the slow part
 	c.Extra("cases_where_the_tokenizer_model_made_no_claim", conservative)
 	c.Extra("cases_bad_in_the_batch_filter", batchBad)
 	c.Extra("cases_unexamined_in_dirty_chunks", unexamined)
